@@ -181,6 +181,22 @@ func parseGroup(node *yaml.Node, schema Schema, offsetLine, offsetColumn int, co
 				group.Error = err
 				return group
 			}
+			for _, lab := range nodes {
+				if !model.LabelName(lab.key.Value).IsValid() || lab.key.Value == model.MetricNameLabel {
+					group.Error = ParseError{
+						Line: lab.key.Line,
+						Err:  fmt.Errorf("invalid label name: %s", lab.key.Value),
+					}
+					return group
+				}
+				if !model.LabelValue(lab.val.Value).IsValid() {
+					group.Error = ParseError{
+						Line: lab.key.Line,
+						Err:  fmt.Errorf("invalid label value: %s", lab.val.Value),
+					}
+					return group
+				}
+			}
 			group.Labels = newYamlMap(entry.key, entry.val, offsetLine, offsetColumn, contentLines)
 		case "rules":
 			if !isTag(entry.val.ShortTag(), seqTag) {
